@@ -4,6 +4,7 @@ package osm
 
 import (
 	"encoding/json"
+	"fmt"
 	"time"
 )
 
@@ -204,4 +205,71 @@ func oracleC05CustomCodec(o OSM, hooks int) {
 	vAssert(c04Counts(&back) == c04Counts(&stdBack))
 	vAssert((codec.marshals > 0) == (h == 0 || h == 2))
 	vAssert((codec.unmarshals > 0) == (h == 1 || h == 2))
+}
+
+// C05, element keys: an osmjson document written by hand (Overpass style:
+// version as a number, unknown top-level keys) decodes to the values written,
+// and marshalling an element produces exactly the documented keys.
+//
+//@ func oracleC05Elements
+//@   props C05
+//@   oracle
+//@   covers (schema)C05#format
+func oracleC05Elements(idSel int, withMeta bool) {
+	id := int64(idSel%100000 + 100001)
+	meta := ""
+	if withMeta {
+		meta = `,"timestamp":"2012-01-02T03:04:05Z","version":3,"changeset":77,"user":"u","uid":9`
+	}
+	doc := fmt.Sprintf(`{"version":0.6,"generator":"g","osm3s":{"x":1},"elements":[`+
+		`{"type":"node","id":%d,"lat":1.5,"lon":-2.5%s,"tags":{"name":"n"}},`+
+		`{"type":"way","id":%d,"nodes":[%d,%d]%s,"tags":{"highway":"path"}},`+
+		`{"type":"relation","id":%d,"members":[{"type":"way","ref":%d,"role":"outer"},{"type":"node","ref":%d,"role":""}]%s,"tags":{"type":"multipolygon"}}]}`,
+		id, meta, id+1, id, id+5, meta, id+2, id+1, id, meta)
+	var o OSM
+	err := json.Unmarshal([]byte(doc), &o)
+	vAssert(err == nil)
+	vAssert(len(o.Nodes) == 1 && len(o.Ways) == 1 && len(o.Relations) == 1)
+	if err != nil || len(o.Nodes) != 1 || len(o.Ways) != 1 || len(o.Relations) != 1 {
+		return
+	}
+	at := time.Date(2012, 1, 2, 3, 4, 5, 0, time.UTC)
+	n, w, r := o.Nodes[0], o.Ways[0], o.Relations[0]
+	vAssert(int64(n.ID) == id && n.Lat == 1.5 && n.Lon == -2.5 && n.Tags.Find("name") == "n")
+	vAssert(int64(w.ID) == id+1 && len(w.Nodes) == 2 && int64(w.Nodes[0].ID) == id && int64(w.Nodes[1].ID) == id+5 && w.Tags.Find("highway") == "path")
+	vAssert(int64(r.ID) == id+2 && len(r.Members) == 2 && r.Members[0].Type == TypeWay && r.Members[0].Ref == id+1 && r.Members[0].Role == "outer" && r.Members[1].Type == TypeNode && r.Members[1].Ref == id)
+	if withMeta {
+		vAssert(n.Timestamp.Equal(at) && n.Version == 3 && n.ChangesetID == 77 && n.User == "u" && n.UserID == 9)
+		vAssert(w.Timestamp.Equal(at) && w.Version == 3 && w.ChangesetID == 77 && w.User == "u" && w.UserID == 9)
+		vAssert(r.Timestamp.Equal(at) && r.Version == 3 && r.ChangesetID == 77 && r.User == "u" && r.UserID == 9)
+	}
+	// marshalling: the documented keys
+	keys := func(v interface{}) map[string]interface{} {
+		data, err := json.Marshal(v)
+		vAssert(err == nil)
+		m := map[string]interface{}{}
+		vAssert(json.Unmarshal(data, &m) == nil)
+		return m
+	}
+	has := func(m map[string]interface{}, ks ...string) bool {
+		for _, k := range ks {
+			if _, ok := m[k]; !ok {
+				return false
+			}
+		}
+		return true
+	}
+	nm, wm, rm := keys(n), keys(w), keys(r)
+	vAssert(nm["type"] == "node" && has(nm, "id", "lat", "lon", "tags"))
+	vAssert(wm["type"] == "way" && has(wm, "id", "nodes", "tags"))
+	vAssert(rm["type"] == "relation" && has(rm, "id", "members", "tags"))
+	if withMeta {
+		vAssert(has(nm, "timestamp", "version", "changeset", "user", "uid") && has(wm, "timestamp", "version", "changeset", "user", "uid") && has(rm, "timestamp", "version", "changeset", "user", "uid"))
+	}
+	if ms, ok := rm["members"].([]interface{}); ok && len(ms) == 2 {
+		m0, _ := ms[0].(map[string]interface{})
+		vAssert(m0["type"] == "way" && m0["role"] == "outer" && has(m0, "ref"))
+	} else {
+		vAssert(false)
+	}
 }
